@@ -190,3 +190,25 @@ def const_value(e: ast.AST) -> object:
     if isinstance(e, ast.UnaryOp) and isinstance(e.op, ast.USub) and isinstance(e.operand, ast.Constant):
         return -e.operand.value
     raise ValueError("not a constant")
+
+
+def guard_conjuncts(f, node, innermost: bool = False) -> "set[str]":
+    """The conditions under which `node` executes inside f, as a set of normalised conjunct texts: the tests of the
+    enclosing if/elif/while statements (negated for else arms), `and`s split, double negations removed."""
+    import ast as _ast
+
+    from .equiv import _Expr, negate
+    from .rules.tokenizer import _guard_tests
+
+    out = set()
+    tests = _guard_tests(f, node)
+    if innermost:
+        tests = tests[-1:]
+    for test, pol in tests:
+        t = _Expr().visit(_ast.parse(_ast.unparse(test), mode="eval").body)
+        if not pol:
+            t = negate(t)
+        parts = t.values if isinstance(t, _ast.BoolOp) and isinstance(t.op, _ast.And) else [t]
+        for p in parts:
+            out.add("".join(_ast.unparse(p).split()))
+    return out
